@@ -92,6 +92,7 @@ func (fc *FnCtx) reset(pass int) {
 	}
 	fc.owned = nil
 	fc.invCallOrd = 0
+	fc.assignOrd = map[string]int{}
 	fc.wlog, fc.alog, fc.freshOnly = nil, nil, nil
 	fc.invKeys = nil
 	if pass == 1 {
